@@ -563,7 +563,7 @@ pub fn run(ctx: &Ctx) -> i32 {
     stats.exhaustive_subspaces.insert("ports 1,5,B (thorough: all): all histories of depth 6 over {DDR,DR,pins} x {00,FF,A5}".into(), tier.pick(3, 11) * 9u64.pow(6));
 
     // (2) random histories (single ports and pairs, all 256 values, instruction-driven writes, control lines)
-    let nh: u32 = tier.pick(300_000, 6_000_000);
+    let nh: u32 = tier.pick(300_000, 30_000_000);
     let nshards = 32usize;
     let hstats = par_shards(ctx, nshards, |shard| {
         let w = Worker::new(ctx);
